@@ -42,6 +42,10 @@ def parse(repo):
     fn = next((n for n in tree.body if isinstance(n, ast.FunctionDef) and n.name == "optimize_ir"), None)
     if fn is None:
         raise Unrecognised("optimize_ir not found")
+    # `v = E` bound once and read once, the read being the first thing the next statement evaluates (harness/c01_pynorm.py inline_single_use):
+    # a pass / pass manager hoisted into a named local right before its only use reads as the expression in place
+    from harness import c01_pynorm as PN
+    fn = PN.inline_single_use(fn)
     body = list(fn.body)
     if body and isinstance(body[0], ast.Expr) and isinstance(body[0].value, ast.Constant) and isinstance(body[0].value.value, str):
         body = body[1:]
